@@ -42,3 +42,19 @@ pub fn dismain(rest: &str) -> String {
     };
     format!("exit0 {}", hex(out.as_bytes()))
 }
+
+/// `loadasm <hexbytes>`: load, then assemble the loaded module
+pub fn loadasm(rest: &str) -> String {
+    use rspirv::binary::Assemble;
+    let bytes = match crate::util::try_unhex(rest.trim()) {
+        Some(b) => b,
+        None => return "bad-request".to_string(),
+    };
+    match rspirv::dr::load_bytes(&bytes) {
+        Ok(m) => {
+            let ws: Vec<String> = m.assemble().iter().map(|w| w.to_string()).collect();
+            format!("ok {}", ws.join(","))
+        }
+        Err(e) => format!("err {}", hex(format!("{}", e).as_bytes())),
+    }
+}
